@@ -263,6 +263,7 @@ func CSVProducer(opts ...CSVOpt) Producer {
 			}
 			rdr := bytes.NewBuffer(buf)
 			csvReader := csv.NewReader(rdr)
+			o.applyToReader(csvReader)
 
 			return bufferedCSV(csvWriter, csvReader, o)
 
